@@ -205,7 +205,8 @@ func genDur(r *Rand, allowSign bool) (string, int, string) {
 var wordPool = []string{"foo", "bar", "Lorem", "ipsum", "meeting", "#tag", "#Tag=val", "#x_y-z", "#tag=\"a b\"", "#t='q'",
 	"\u00e4", "\u00dcn\u00efc\u00f6d\u00e9", "\u65e5\u672c\u8a9e", "#\u00fcberf\u00e4llig", "1h", "8:00", "8:00 - 9:00", "-", "?", "2020-01-01", "(8h!)", "#", "#=", "a#b",
 	"\u2026", "\u00a0", "x y", "\ufffd", "  ", "\t", "\xff", "\xc3", "a\rb", "!", "(", ")", "#a=1#b", "#A", "#a", "\u3000x",
-	"100%", "%s", "%d%%", "%!", "#t=\"open", "#q='open", "\"", "'", "x\"", "y'", "\\", "#v=\"a'b\"", "#w='c\"d'"}
+	"100%", "%s", "%d%%", "%!", "#t=\"open", "#q='open", "\"", "'", "x\"", "y'", "\\", "#v=\"a'b\"", "#w='c\"d'",
+	"#ticket=\"ABC/123\"", "#p='a.b,c'", "#k=\"x:y\"", "#e=\"\"", "#u=a/b", "#n=\"plain\""}
 
 func genText(r *Rand, nonBlankStart bool) string {
 	n := r.Range(1, 5)
